@@ -163,7 +163,9 @@ func depthCheck(yylex interface{}, depth int) int {
 %token <hints>  HINT
 %token <expr>   BOUNDPARAM
 
-%left  <int>  AND OR
+%token <int>  AND OR
+%left  OR
+%left  AND
 %left  <int>  ADD SUB BITWISE_OR BITWISE_XOR
 %left  <int>  MUL DIV MOD BITWISE_AND
 %left  UNION
